@@ -136,6 +136,39 @@ prop("C14", "Configuration is resolved with the documented precedence", "other",
      statement_clauses={"U19": "with `--config key=val` and dedicated flags overriding any file, and with unset options taking the defaults of the effective style edition (style_edition, else legacy version, else edition) ... deprecated aliases map to their successors; width limits derived from use_small_heuristics never exceed max_width"},
      assumptions=["Config is a shim carrying the option triples the extracted functions touch", "Config::from_toml_path / from_resolved_toml_path / config_path are recording stand-ins in the native part"])
 
+prop("C18", "cargo fmt formats the right targets with the right editions", "exploration",
+     ["U21"],
+     [{"clause": "exit status is non-zero exactly when some rustfmt invocation failed (all vectors of <= 2 real wait statuses incl. signals, <= 3 over representatives; plus real child processes)", "status": "bounded", "by": "U21"},
+      {"clause": "each file once, each with the edition declared for its target; one invocation per edition; options passed through unchanged after the files and --edition", "status": "bounded", "by": "U21 (lists of <= 4 targets; recording Command shim)"},
+      {"clause": "Target identity/order/hash by path; BTreeSet de-duplicates shared files", "status": "bounded", "by": "U21"},
+      {"clause": "selection strategy table (--all / -p / root)", "status": "bounded", "by": "U21"},
+      {"clause": "target discovery through `cargo metadata` (workspace members, path dependencies), unknown package / unusable manifest errors, clap flag translation", "status": "not_decided", "by": "-"}],
+     "Whole file src/cargo-fmt/main.rs verbatim; run_rustfmt is exercised both through a recording Command shim (extracted a second time into a module where Command resolves to the shim) and end-to-end with real child processes that exit or kill themselves as scripted. "
+     "cargo-fmt is process/HashMap/String code outside Verus and Kani; hence bounded exploration with a stated domain.",
+     statement_clauses={"U21": "each file once, each with the edition declared for its target ...; its exit status is non-zero exactly when some rustfmt invocation failed"},
+     assumptions=["Target values are built by struct literal (Target::from_target's canonicalisation is not exercised)", "cargo metadata, process spawning and clap are trusted"])
+
+prop("C19", "format-diff turns a patch into exactly the lines it added", "exploration",
+     ["U22"],
+     [{"clause": "files and ranges == an independent, regex-free reading of the diff: post-image path minus -p components, whole-path filter match, range [start, start+count-1], missing count = 1, count 0 skipped, non-headers contribute nothing", "status": "bounded", "by": "U22 (all sequences of <= 3/4 lines over 16 line shapes x -p 0..3 x 4 filters)"},
+      {"clause": "run_rustfmt passes exactly those files and ranges as --file-lines JSON, runs nothing for an empty result, fails when the child fails or cannot start", "status": "bounded", "by": "U22 (recording process shim, 6 child outcomes)"},
+      {"clause": "reading the diff from stdin (fn run), clap argument parsing", "status": "not_decided", "by": "-"}],
+     "Whole file src/format-diff/main.rs verbatim with the real regex crate against an oracle written from the statement. Regex/String/HashSet code is outside Verus and Kani; bounded exploration.",
+     statement_clauses={"U22": "precisely the post-image line range announced by each hunk header (start and count, a missing count meaning one line); hunks whose post-image is empty, files that do not match and lines that are not headers contribute nothing"},
+     assumptions=["line numbers <= 2^31 (observation O4: larger ones panic in parse::<u32>().unwrap(); outside C19's quantifier)", "paths without blanks (as in the quantifier)"])
+
+prop("C09", "Released style editions are frozen", "other",
+     ["U20"],
+     [{"clause": "style editions 2015, 2018 and 2021 produce identical text — non-interference: every comparison of the style edition in formatting code is constant on the three (frame scan over all of src/), and the default table groups them in one arm", "status": "bounded", "by": "U20 frame scan (mechanical, whole src/) — a token-level frame argument, not a deductive proof"},
+      {"clause": "the order those comparisons rely on is the total order 2015 < 2018 < 2021 < 2024 < 2027 (real PartialOrd impl over the real rustc Edition)", "status": "bounded", "by": "U20 native (finite domain enumerated completely: 25 pairs x operators)"},
+      {"clause": "the import comparator gives identical results for 2015/2018/2021", "status": "bounded", "by": "U13 (see C11)"},
+      {"clause": "byte-identical to the pinned release rustfmt 1.8.0 for every released style edition", "status": "not_decided", "by": "- (compares two executions of two builds; no contract on one function states it)"}],
+     "Clause 1 is decided by a non-interference argument: the style edition reaches formatting code only through comparisons against StyleEdition::EditionN constants, copies of the value, and the per-edition default table; "
+     "the scan classifies every such token and fails on any comparison whose truth value differs among 2015/2018/2021 (e.g. `>= Edition2021`, `== Edition2018`). A form the scan cannot classify is exit 2 (undecided), never an alarm. "
+     "Clause 2 (equality with the pinned release) is not decided by this technique.",
+     statement_clauses={"U20": "For a given source and options, the style editions 2015, 2018 and 2021 produce identical text"},
+     assumptions=["the style edition influences formatting only through the scanned token forms (values copied into UseSegment.style_edition are compared with the same operators, which the scan also sees)"])
+
 # ------------------------------------------------------------------ MANIFEST texts
 T_V = "contract-based deductive verification: Verus on mechanically extracted real functions"
 T_K = "contract-based verification: Kani harnesses over full-domain symbolic inputs on extracted loop-free real functions (complete)"
@@ -151,6 +184,8 @@ MANIFEST_TEXT = {
             "note": "FmtVisitor/Config shims; precondition no CR before CRLF; string-walking code is outside Verus/Kani (measured)", "technique": T_B + " + " + T_V},
     "C14": {"text": "Default-selection precedence, width clamping, Max/Off tables and deprecated-alias mapping proved with Kani on the verbatim create_config! helper functions; loader orchestration and file-name preference enumerated natively. Literal clause 'heuristic widths never exceed max_width' is a recorded known finding (F3).",
             "note": "Config shim; TOML loaders are recording stand-ins; per-option macro code and directory walk not decided", "technique": T_K + " + " + T_B},
+    "C09": {"text": "Clause 1 (2015/2018/2021 identical) by non-interference: a whole-src token scan shows every style-edition comparison is constant on the three old editions and the default table groups them; the order relied on is enumerated completely on the real PartialOrd impl. Clause 2 (byte-identity with the pinned release) is not decided.",
+            "note": "frame scan is lexical (complete for what it states); assumes the style edition is only observed through the scanned forms", "technique": "mechanical frame scan (non-interference) + complete enumeration of the real StyleEdition order"},
     "C12": {"text": "The property's own exhaustive quantifier (all pairs of line sequences <= 5 over {\"\",a,b}, final newline y/n, context 0..3) is enumerated completely on the real diff/report code with independent oracles (apply-chunks, re-parse, line-number consistency, XML/JSON well-formedness). Bounded stand-in: no deductive back end reaches this String/iterator code.",
             "note": "diff crate and serde_json trusted; Config shim (color, verbose); two recorded known findings for the checkstyle report", "technique": T_B},
     "C15": {"text": "Only the inter-file session state is within reach: ReportedErrors::add is a field-wise OR, exit status of a multi-file run is the max of the single statuses, override_config restores the config — all proved by Kani over fully symbolic inputs (loop-free, complete). Determinism of the formatter proper is not decided.",
@@ -159,6 +194,10 @@ MANIFEST_TEXT = {
             "note": "Verus/Z3, extractor, 64-bit usize; std::cmp::{min,max} usize shims; everything outside the contracted functions is unverified surroundings", "technique": T_V + " + " + T_B},
     "C17": {"text": "Range algebra proved in Verus against a set-of-lines view (union semantics of merge/adjacent/intersects, all usize); the FileLines container is checked bounded-exhaustively on the real file text. Visitor-side use of the guard is not decided.",
             "note": "Verus/Z3, extractor; HashMap/iterator/serde code only bounded; SourceMap line lookup unverified", "technique": T_V + " + " + T_B},
+    "C18": {"text": "Bounded-exhaustive contract check of the real cargo-fmt text: status fold over all real wait statuses (vectors <= 2, representatives <= 3) and real child processes, edition grouping / argument vectors over all lists of <= 4 targets with a recording Command shim, Target identity laws, strategy table. Target discovery via cargo metadata is not decided.",
+            "note": "process spawning shimmed (and additionally exercised for real in 9 scenarios); cargo metadata/clap trusted", "technique": T_B},
+    "C19": {"text": "Bounded-exhaustive contract check of the real scan_diff/run_rustfmt text against an independent regex-free reading of the diff (all line sequences <= 3/4 over 16 shapes x -p 0..3 x 4 filters; recording process shim).",
+            "note": "regex crate trusted; line numbers <= 2^31; stdin reading and clap not decided", "technique": T_B},
     "C20": {"text": "Complete enumeration of fault points (operation index x {fails clean, fails after partial write, crash after, crash after partial write}) of the loop-free effect sequence of the real FilesWithBackupEmitter text against a recording file-system model; invariant checked after every operation.",
             "note": "FS model (write non-atomic, rename atomic) is assumed; contents from 4 short texts; Verus/Kani cannot execute Path/dyn Write code (measured), so this is native enumeration, not proof", "technique": "fault enumeration of the real function text against a file-system model (bounded stand-in for a contract proof)"},
 }
